@@ -81,7 +81,7 @@ def verilog_candidates(d):
                 del c["modules"][mi]["wires"][k]
                 yield c
         for k, p in enumerate(m["ports"]):
-            inner = set(p.get("alias") or []) | {p.get("alias_wide") or p["name"]}
+            inner = set(p.get("alias") or []) | {p.get("alias_wide") or (p.get("alias_bits") or {}).get("net") or p["name"]}
             if inner & used:
                 continue
             c = copy.deepcopy(d)
